@@ -23,6 +23,7 @@ import subprocess
 import tempfile
 import z3
 from engine.contract import Contract, Case
+from engine.sx import LoopSpec
 from engine import values as V
 from engine.values import U
 from engine.logic import I, Idx, Shp
@@ -150,6 +151,30 @@ def install_axioms(reg):
             raise U(f"numpy.{fname} of these operands", node)
     for f in JOINERS:
         joiner(f)
+    install_diff_axiom(reg)
+
+
+numpy_diff_column = z3.Function("numpy_diff_column", I, Idx, z3.RealSort())     # numpy.diff of the columns of term t
+
+
+def install_diff_axiom(reg):
+    @reg.axiom("numpy.diff")
+    def _d(ex, args, kw, node):
+        a = args[0] if args else None
+        cv = getattr(a, "colview", None)
+        if not isinstance(a, Arr) or cv is None or len(args) != 1:
+            raise U("numpy.diff of this operand", node)
+        bound = bind_numpy(ex, "diff", args, kw, node)
+        t = cv[1]
+        shp = z3.Function("diff_shape", Shp, Shp)
+        from engine.polymodel import result_type
+        dt = a.dtype                       # numpy concatenates prepend / a / append first: their dtypes are promoted
+        for extra in ("prepend", "append"):
+            if isinstance(bound.get(extra), Arr):
+                dt = result_type(dt, bound[extra].dtype)
+        out = Arr(shp(a.shape), lambda i: numpy_diff_column(t, i), "real", dt, Region("fresh"))
+        ex.__dict__.setdefault("diff_calls", []).append(dict(col=cv, bound=bound))
+        return out
 
 
 def rewrap(ex, moved, names, node, allocation=None):
@@ -345,7 +370,100 @@ class Joiner(Contract):
         return r
 
 
+class Diff(Contract):
+    name, func, relpath = "numpoly.diff", "diff", "numpoly/array_function/diff.py"
+    properties = ("C10", "C12", "C17")
+    positional = ("a", "n", "axis", "prepend", "append")
+    assumptions = ("B5: numpy.diff is linear, so differencing every coefficient column differences the polynomial elements",)
+
+    def _loops(self):
+        def inv(ex, env, k):
+            out = env.get("out")
+            if not isinstance(out, Poly):
+                return [("output_allocated_in_the_first_iteration", z3.BoolVal(False))]
+            return [("columns_written_so_far", ex.ctx.forall_range(0, k, lambda t: ex.ctx.forall_idx(
+                lambda i: z3.And(out.init(t, i), out.C(t, i) == numpy_diff_column(t, i)), out.shape)))]
+
+        def havoc(ex, env, k):
+            out = env["out"]
+            cf, inf = ex.ctx.func("C_h", I, Idx, z3.RealSort()), ex.ctx.func("init_h", I, Idx, z3.BoolSort())
+            out._C = lambda t, i: cf(t, i)
+            out._init = lambda t, i: inf(t, i)
+        return {1: LoopSpec(inv, havoc, modifies=("key", "kwargs", "tmp", "out"), peel=1)}
+
+    def cases(self):
+        for label, with_app, with_pre in (("plain", False, False), ("append", True, False), ("prepend", False, True), ("both", True, True)):
+            def make_env(ex, with_app=with_app, with_pre=with_pre):
+                n_ops = 1 + with_app + with_pre
+                ps = sym_polys(ex, n_ops, broadcast=False)
+                ex.inputs = ps
+                ex.ghost = {}
+                ex.hooks = {"after_align": lambda ex_, res: ex_.ghost.update(aligned=list(res))}
+                ex.n, ex.axis = Tok("n"), Tok("axis")
+                it = iter(ps[1:])
+                app = next(it) if with_app else None
+                pre = next(it) if with_pre else None
+                ex.app, ex.pre = app, pre
+                return {"a": ps[0], "n": ex.n, "axis": ex.axis, "prepend": pre, "append": app}
+
+            def check(out, with_app=with_app, with_pre=with_pre):
+                ex, ctx = out.ex, out.ctx
+                ex.oblige(f"raises.nothing[{out.exc}:{out.value}]" if out.kind == "raise" else "raises.nothing", z3.BoolVal(out.kind == "return"), "post")
+                if out.kind != "return":
+                    return
+                r = out.value
+                ok = isinstance(r, Poly) and hasattr(r, "from_attrs")
+                ex.oblige("post.cleaned_filled_polynomial", z3.BoolVal(ok), "post")
+                if not ok:
+                    return
+                al = ex.ghost.get("aligned")
+                if with_app or with_pre:
+                    ex.oblige("post.operands_aligned", z3.BoolVal(al is not None and len(al) == 1 + with_app + with_pre), "post")
+                    if al is None:
+                        return
+                    A = al[0]
+                    APP = al[1] if with_app else None
+                    PRE = al[1 + with_app] if with_pre else None
+                else:
+                    A, APP, PRE = ex.inputs[0], None, None
+                fa = r.from_attrs
+                src = getattr(fa["E"], "source", None)
+                okc = isinstance(src, Poly) and getattr(fa["C"], "source", (None,))[0] is src
+                ex.oblige("post.result_is_cleaning_of_the_filled_polynomial", z3.BoolVal(okc), "post")
+                if not okc:
+                    return
+                ex.oblige("post.rows_and_names_of_the_operand", z3.And(src.N == A.N, src.D == A.D, src.names == A.names,
+                                                                      ctx.forall_range(0, A.N, lambda t: src.row(t) == A.row(t))), "post")
+                Cs = V.as_seq(ex, fa["C"])
+                ex.oblige("post.every_column_is_numpy_diff_of_the_columns_of_its_term", ctx.forall_range(0, A.N, lambda t: ctx.forall_idx(
+                    lambda i: z3.And(Cs.item(t).init(i), Cs.item(t).elem(i) == numpy_diff_column(t, i)), src.shape)), "post")
+                calls = getattr(ex, "diff_calls", [])
+                good = bool(calls)
+                for c in calls:
+                    p_, t_ = c["col"]
+                    b = c["bound"]
+                    good = good and p_ is A and b.get("n") is ex.n and b.get("axis") is ex.axis
+                    ap, pr = b.get("append"), b.get("prepend")
+                    good = good and ((ap is None) if APP is None else (getattr(ap, "colview", (None, None))[0] is APP and getattr(ap, "colview")[1] is t_))
+                    good = good and ((pr is None) if PRE is None else (getattr(pr, "colview", (None, None))[0] is PRE and getattr(pr, "colview")[1] is t_))
+                from engine.polymodel import result_type
+                want = A.dtype
+                for q in (PRE, APP):
+                    if q is not None:
+                        want = result_type(want, q.dtype)
+                ex.oblige("post.dtype_is_that_of_the_differenced_columns", src.dtype == want, "post",
+                          note="with prepend/append of another dtype numpy promotes; the result must carry that dtype")
+                ex.oblige("post.numpy_diff_gets_the_columns_of_one_term_and_the_user_arguments", z3.BoolVal(bool(good)), "post",
+                          note="column t of a (and of append / prepend, aligned to the same terms) with n and axis forwarded")
+                ex.oblige("post.fresh", z3.BoolVal(r.region.owner == "fresh"), "post")
+            yield Case(label, make_env, check, loops=self._loops())
+
+    def apply(self, ex, args, kw, node):
+        raise U("diff as a callee", node)
+
+
 CONTRACTS = [
+    Diff(),
     RawWrapper("reshape", ("shape", "order"), variants=[dict(label="shape", env={"newshape": None}),
                                                         dict(label="newshape", env={"shape": None, "newshape": "TOKEN"},
                                                              source={"shape": "newshape"})]),
